@@ -1,6 +1,7 @@
 package sql
 
 import (
+	"encoding/hex"
 	"expvar"
 	"fmt"
 	"io"
@@ -322,6 +323,13 @@ func literalInt(e sql.Expr) (int64, bool) {
 		if f, err := strconv.ParseFloat(v, 64); err == nil && !math.IsNaN(f) && math.Abs(f) < 1e18 {
 			return int64(f), true
 		}
+	case *sql.BlobLit:
+		// SQLite reads the bytes of a blob as text.
+		b, err := hex.DecodeString(lit.Value)
+		if err != nil {
+			return 0, false
+		}
+		return literalInt(&sql.StringLit{Value: string(b)})
 	case *sql.StringLit:
 		// SQLite uses the longest integer prefix of the text.
 		v := strings.TrimLeft(lit.Value, " \t\n\r\f")
